@@ -34,26 +34,26 @@ Section P.
   (* "carries Basic credentials that verify against the entry of u": the value is
      `<scheme> <b64>` with scheme = basic (any case), the decoded bytes are `user:password`,
      u has an entry and the (encoded) password equals that entry *)
-  Definition basic_verifies (cred : str) (users : list (str * str)) (u : str) : Prop :=
+  Definition basic_verifies (cred : str) (users : str -> option str) (u : str) : Prop :=
     exists scheme rest bytes ub pb p e,
       split_at SP cred = Some (scheme, rest) /\ lower scheme = s_basic /\
       b64 rest = Some bytes /\ split_at COLON bytes = Some (ub, pb) /\
       utf8 ub = Some u /\ utf8 pb = Some p /\
-      lookup u users = Some e /\ enc p u = Some e.
+      users u = Some e /\ enc p u = Some e.
 
   (* "carries Digest credentials that verify against the entry of u for the realm":
      the parameter list has the required fields (and a coherent qop/nc/cnonce set), names u
      and the configured realm, u has an entry, and the presented response is the RFC 2617
      request-digest computed from that entry, the request method and the parameters *)
-  Definition digest_verifies (cred method realm : str) (users : list (str * str)) (u : str) : Prop :=
+  Definition digest_verifies (cred method realm : str) (users : str -> option str) (u : str) : Prop :=
     exists scheme rest ps e resp,
       split_at SP cred = Some (scheme, rest) /\ lower scheme = s_digest /\
       keqv rest = Some ps /\ digest_valid ps = true /\ has s_auth_scheme ps = false /\
-      lookup s_username ps = Some u /\ lookup u users = Some e /\
+      lookup s_username ps = Some u /\ users u = Some e /\
       lookup s_realm ps = Some realm /\ lookup s_response ps = Some resp /\
       digest_response md5 ps e method = Some resp.
 
-  Definition verifies (hdr : option str) (method realm : str) (users : list (str * str)) (u : str) : Prop :=
+  Definition verifies (hdr : option str) (method realm : str) (users : str -> option str) (u : str) : Prop :=
     match hdr with
     | None => False
     | Some cred => basic_verifies cred users u \/ digest_verifies cred method realm users u
@@ -126,14 +126,14 @@ Section P.
     intros hdr method realm users u. destruct hdr as [cred|]; simpl; [|split; [discriminate|tauto]].
     split.
     - intro H. destruct (parse cred) as [| |bu bp|ps] eqn:P; try discriminate.
-      + destruct (lookup bu users) as [entry|] eqn:L; [|discriminate].
+      + destruct (users bu) as [entry|] eqn:L; [|discriminate].
         destruct (enc bp bu) as [e|] eqn:E; [|discriminate].
         destruct (str_eqb e entry) eqn:Q; [|discriminate].
         injection H as ->. apply str_eqb_eq in Q. subst e.
         apply parse_basic_inv in P. destruct P as (scheme & rest & bytes & ub & pb & S & Lw & D & C & U1 & U2).
         left. exists scheme, rest, bytes, ub, pb, bp, entry. repeat split; assumption.
       + destruct (lookup s_username ps) as [du|] eqn:Un; [|discriminate].
-        destruct (lookup du users) as [entry|] eqn:L; [|discriminate].
+        destruct (users du) as [entry|] eqn:L; [|discriminate].
         destruct (lookup s_realm ps) as [r|] eqn:R; [|discriminate].
         destruct (lookup s_response ps) as [resp|] eqn:Rs; [|discriminate].
         destruct (str_eqb r realm) eqn:Q; simpl in H; [|discriminate].
@@ -161,7 +161,7 @@ Section P.
   Qed.
 
   Corollary authenticated_in_table : forall hdr method realm users u,
-    check hdr method realm users = Authd u -> exists e, lookup u users = Some e.
+    check hdr method realm users = Authd u -> exists e, users u = Some e.
   Proof.
     intros hdr method realm users u H. apply auth_sound in H. destruct hdr as [cred|]; simpl in H; [|contradiction].
     destruct H as [H|H].
@@ -171,7 +171,7 @@ Section P.
 
   (* a user without entry is never authenticated, whatever secret the client derives *)
   Corollary unknown_user_refused : forall hdr method realm users u,
-    lookup u users = None -> check hdr method realm users <> Authd u.
+    users u = None -> check hdr method realm users <> Authd u.
   Proof.
     intros hdr method realm users u L H. apply authenticated_in_table in H. destruct H as [e H].
     rewrite H in L. discriminate.
@@ -215,7 +215,187 @@ Section P.
     destruct (H scheme rest eq_refl) as [H1 H2].
     apply str_eqb_neq in H1. apply str_eqb_neq in H2. rewrite H1, H2. reflexivity.
   Qed.
+  (* ---------------- the supported Digest variants, one by one ---------------- *)
+
+  (* a header that parsed to Digest parameters ps, naming u (entry pw): authenticated iff the
+     realm is the configured one and the presented response is digest_response *)
+  Lemma check_digest_unfold : forall cred ps method realm users u pw prealm resp,
+    parse cred = PDigest ps ->
+    lookup s_username ps = Some u -> users u = Some pw ->
+    lookup s_realm ps = Some prealm -> lookup s_response ps = Some resp ->
+    (check (Some cred) method realm users = Authd u <->
+       prealm = realm /\ digest_response md5 ps pw method = Some resp).
+  Proof.
+    intros cred ps method realm users u pw prealm resp P Un L R Rs.
+    unfold check_auth. rewrite P, Un, L, R, Rs.
+    destruct (str_eqb prealm realm) eqn:Q; simpl.
+    - apply str_eqb_eq in Q. subst prealm.
+      destruct (digest_response md5 ps pw method) as [x|] eqn:X.
+      + destruct (str_eqb x resp) eqn:Q2.
+        * apply str_eqb_eq in Q2. subst x. split; [intros _; split; reflexivity | reflexivity].
+        * apply str_eqb_neq in Q2. split; [discriminate|]. intros [_ H]. injection H as H. contradiction.
+      + split; [discriminate|]. intros [_ H]. discriminate.
+    - apply str_eqb_neq in Q. split; [discriminate|]. intros [H _]. contradiction.
+  Qed.
+
+  Definition alg_md5 (ps : params) : Prop :=
+    lookup s_algorithm ps = None \/ lookup s_algorithm ps = Some s_MD5.
+
+  (* RFC 2069 compatible: no qop.  response = H( H(user:realm:pw) : nonce : H(method:uri) ) *)
+  Lemma digest_response_legacy : forall ps pw method user prealm nonce uri,
+    alg_md5 ps -> lookup s_qop ps = None ->
+    lookup s_username ps = Some user -> lookup s_realm ps = Some prealm ->
+    lookup s_nonce ps = Some nonce -> lookup s_uri ps = Some uri ->
+    digest_response md5 ps pw method =
+      match md5 (colon_join [method; uri]), md5 (colon_join [user; prealm; pw]) with
+      | Some h2, Some h1 => md5 (colon_join [h1; colon_join [nonce; h2]])
+      | _, _ => None
+      end.
+  Proof.
+    intros ps pw method user prealm nonce uri A Q U R N Ur. unfold digest_response.
+    rewrite Q, U, R, N, Ur. destruct A as [A|A]; rewrite A; simpl;
+      destruct (md5 (colon_join [method; uri])); try reflexivity;
+      destruct (md5 (colon_join [user; prealm; pw])); reflexivity.
+  Qed.
+
+  (* qop=auth, algorithm MD5:
+     response = H( H(user:realm:pw) : nonce:nc:cnonce:auth : H(method:uri) ) *)
+  Lemma digest_response_qop_auth : forall ps pw method user prealm nonce uri nc cn,
+    alg_md5 ps -> lookup s_qop ps = Some s_auth ->
+    lookup s_username ps = Some user -> lookup s_realm ps = Some prealm ->
+    lookup s_nonce ps = Some nonce -> lookup s_uri ps = Some uri ->
+    lookup s_nc ps = Some nc -> lookup s_cnonce ps = Some cn ->
+    digest_response md5 ps pw method =
+      match md5 (colon_join [method; uri]), md5 (colon_join [user; prealm; pw]) with
+      | Some h2, Some h1 => md5 (colon_join [h1; colon_join [nonce; nc; cn; s_auth; h2]])
+      | _, _ => None
+      end.
+  Proof.
+    intros ps pw method user prealm nonce uri nc cn A Q U R N Ur Nc Cn. unfold digest_response.
+    rewrite Q, U, R, N, Ur, Nc, Cn. destruct A as [A|A]; rewrite A; simpl;
+      destruct (md5 (colon_join [method; uri])); try reflexivity;
+      destruct (md5 (colon_join [user; prealm; pw])); reflexivity.
+  Qed.
+
+  (* algorithm=MD5-sess (qop=auth):  A1 = H(user:realm:pw) : nonce : cnonce,
+     response = H( H(A1) : nonce:nc:cnonce:auth : H(method:uri) ) *)
+  Lemma digest_response_md5_sess : forall ps pw method user prealm nonce uri nc cn,
+    lookup s_algorithm ps = Some s_MD5_sess -> lookup s_qop ps = Some s_auth ->
+    lookup s_username ps = Some user -> lookup s_realm ps = Some prealm ->
+    lookup s_nonce ps = Some nonce -> lookup s_uri ps = Some uri ->
+    lookup s_nc ps = Some nc -> lookup s_cnonce ps = Some cn ->
+    digest_response md5 ps pw method =
+      match md5 (colon_join [method; uri]), md5 (colon_join [user; prealm; pw]) with
+      | Some h2, Some h =>
+          match md5 (colon_join [h; nonce; cn]) with
+          | Some h1 => md5 (colon_join [h1; colon_join [nonce; nc; cn; s_auth; h2]])
+          | None => None
+          end
+      | _, _ => None
+      end.
+  Proof.
+    intros ps pw method user prealm nonce uri nc cn A Q U R N Ur Nc Cn. unfold digest_response.
+    rewrite A, Q, U, R, N, Ur, Nc, Cn.
+    destruct (md5 (colon_join [method; uri])) as [h2|]; try reflexivity.
+    destruct (md5 (colon_join [user; prealm; pw])) as [h|]; reflexivity.
+  Qed.
+
+  Theorem digest_legacy_iff : forall cred ps method realm users u pw prealm nonce uri resp,
+    parse cred = PDigest ps -> alg_md5 ps -> lookup s_qop ps = None ->
+    lookup s_username ps = Some u -> lookup s_realm ps = Some prealm ->
+    lookup s_nonce ps = Some nonce -> lookup s_uri ps = Some uri ->
+    lookup s_response ps = Some resp -> users u = Some pw ->
+    (check (Some cred) method realm users = Authd u <->
+       prealm = realm /\ exists h1 h2,
+         md5 (colon_join [u; prealm; pw]) = Some h1 /\ md5 (colon_join [method; uri]) = Some h2 /\
+         md5 (colon_join [h1; colon_join [nonce; h2]]) = Some resp).
+  Proof.
+    intros cred ps method realm users u pw prealm nonce uri resp P A Q U R N Ur Rs L.
+    rewrite (check_digest_unfold _ _ _ _ _ _ _ _ _ P U L R Rs).
+    rewrite (digest_response_legacy _ pw method _ _ _ _ A Q U R N Ur).
+    split; intros [E H]; (split; [exact E|]).
+    - destruct (md5 (colon_join [method; uri])) as [h2|]; [|discriminate].
+      destruct (md5 (colon_join [u; prealm; pw])) as [h1|]; [|discriminate].
+      exists h1, h2. repeat split. exact H.
+    - destruct H as (h1 & h2 & H1 & H2 & H3). rewrite H2, H1. exact H3.
+  Qed.
+
+  Theorem digest_qop_auth_iff : forall cred ps method realm users u pw prealm nonce uri nc cn resp,
+    parse cred = PDigest ps -> alg_md5 ps -> lookup s_qop ps = Some s_auth ->
+    lookup s_username ps = Some u -> lookup s_realm ps = Some prealm ->
+    lookup s_nonce ps = Some nonce -> lookup s_uri ps = Some uri ->
+    lookup s_nc ps = Some nc -> lookup s_cnonce ps = Some cn ->
+    lookup s_response ps = Some resp -> users u = Some pw ->
+    (check (Some cred) method realm users = Authd u <->
+       prealm = realm /\ exists h1 h2,
+         md5 (colon_join [u; prealm; pw]) = Some h1 /\ md5 (colon_join [method; uri]) = Some h2 /\
+         md5 (colon_join [h1; colon_join [nonce; nc; cn; s_auth; h2]]) = Some resp).
+  Proof.
+    intros cred ps method realm users u pw prealm nonce uri nc cn resp P A Q U R N Ur Nc Cn Rs L.
+    rewrite (check_digest_unfold _ _ _ _ _ _ _ _ _ P U L R Rs).
+    rewrite (digest_response_qop_auth _ pw method _ _ _ _ _ _ A Q U R N Ur Nc Cn).
+    split; intros [E H]; (split; [exact E|]).
+    - destruct (md5 (colon_join [method; uri])) as [h2|]; [|discriminate].
+      destruct (md5 (colon_join [u; prealm; pw])) as [h1|]; [|discriminate].
+      exists h1, h2. repeat split. exact H.
+    - destruct H as (h1 & h2 & H1 & H2 & H3). rewrite H2, H1. exact H3.
+  Qed.
+
+  Theorem digest_md5_sess_iff : forall cred ps method realm users u pw prealm nonce uri nc cn resp,
+    parse cred = PDigest ps -> lookup s_algorithm ps = Some s_MD5_sess -> lookup s_qop ps = Some s_auth ->
+    lookup s_username ps = Some u -> lookup s_realm ps = Some prealm ->
+    lookup s_nonce ps = Some nonce -> lookup s_uri ps = Some uri ->
+    lookup s_nc ps = Some nc -> lookup s_cnonce ps = Some cn ->
+    lookup s_response ps = Some resp -> users u = Some pw ->
+    (check (Some cred) method realm users = Authd u <->
+       prealm = realm /\ exists h h1 h2,
+         md5 (colon_join [u; prealm; pw]) = Some h /\ md5 (colon_join [h; nonce; cn]) = Some h1 /\
+         md5 (colon_join [method; uri]) = Some h2 /\
+         md5 (colon_join [h1; colon_join [nonce; nc; cn; s_auth; h2]]) = Some resp).
+  Proof.
+    intros cred ps method realm users u pw prealm nonce uri nc cn resp P A Q U R N Ur Nc Cn Rs L.
+    rewrite (check_digest_unfold _ _ _ _ _ _ _ _ _ P U L R Rs).
+    rewrite (digest_response_md5_sess _ pw method _ _ _ _ _ _ A Q U R N Ur Nc Cn).
+    split; intros [E H]; (split; [exact E|]).
+    - destruct (md5 (colon_join [method; uri])) as [h2|]; [|discriminate].
+      destruct (md5 (colon_join [u; prealm; pw])) as [h|]; [|discriminate].
+      destruct (md5 (colon_join [h; nonce; cn])) as [h1|] eqn:E1; [|discriminate].
+      exists h, h1, h2. repeat split; assumption.
+    - destruct H as (h & h1 & h2 & H0 & H1 & H2 & H3). rewrite H2, H0, H1. exact H3.
+  Qed.
+
+  (* the variants _httpauth cannot compute are exceptions, never "authenticated":
+     qop other than auth (auth-int needs kwargs['H']), algorithm other than MD5 / MD5-sess *)
+  Lemma digest_unsupported : forall ps pw method,
+    (exists q, lookup s_qop ps = Some q /\ q <> s_auth) \/
+    (exists a, lookup s_algorithm ps = Some a /\ a <> s_MD5 /\ a <> s_MD5_sess) ->
+    digest_response md5 ps pw method = None.
+  Proof.
+    intros ps pw method [[q [Q Hq]]|[a [A [H1 H2]]]]; unfold digest_response.
+    - destruct (lookup s_algorithm ps) as [a|]; rewrite Q;
+        try (destruct (str_eqb a s_MD5 || str_eqb a s_MD5_sess); simpl; [|reflexivity]);
+        apply str_eqb_neq in Hq; rewrite Hq; reflexivity.
+    - rewrite A. apply str_eqb_neq in H1. apply str_eqb_neq in H2. rewrite H1, H2. reflexivity.
+  Qed.
+
+  (* Basic against a table of pre-encrypted passwords: the presented password is passed through
+     the configured encrypt and compared with the entry *)
+  Theorem basic_encrypted_iff : forall cred method realm users u p,
+    parse cred = PBasic u p ->
+    (check (Some cred) method realm users = Authd u <-> exists e, users u = Some e /\ enc p u = Some e).
+  Proof.
+    intros cred method realm users u p P. unfold check_auth. rewrite P.
+    destruct (users u) as [entry|].
+    - destruct (enc p u) as [e|].
+      + destruct (str_eqb e entry) eqn:Q.
+        * apply str_eqb_eq in Q. subst. split; [intros _; exists entry; split; reflexivity | reflexivity].
+        * apply str_eqb_neq in Q. split; [discriminate|].
+          intros (e' & H1 & H2). injection H1 as <-. injection H2 as H2. contradiction.
+      + split; [discriminate|]. intros (e' & _ & H). discriminate.
+    - split; [discriminate|]. intros (e' & H & _). discriminate.
+  Qed.
 End P.
+
 
 Lemma tools_served : forall b64 utf8 md5 keqv enc hdr method realm users,
   (protected_served (basic_auth b64 utf8 md5 keqv enc hdr method realm users) = true <->
